@@ -19,8 +19,9 @@ Alphabet
              class / on the method, c_b+m_b <= 2, c_a+m_a <= 2; before hooks inject a parameter
   actions    every generated callable asks the Chooser on entry:
                process_request / process_resource : return | resp.complete=True | raise HTTPError |
-                                                    raise AppError (custom handler) | raise AppError2 (default 500)
-               process_response / hook / responder / sink : return | raise HTTPError | AppError | AppError2
+                                                    raise AppError (custom handler) | raise AppError2 (default 500) |
+                                                    raise HTTPStatus
+               process_response / hook / responder / sink : return | raise HTTPError | AppError | AppError2 | HTTPStatus
                AppError handler (itself a choice point)   : return | raise HTTPStatus | raise HTTPError
              Choice points exist only at call sites the framework actually reaches.
   lifespan   ASGI: N<=3 (thorough 4) components, each with a subset of {process_startup,
@@ -59,8 +60,8 @@ class AppError2(Exception):
     """Application error without its own handler (falls to the default 500)."""
 
 
-REQ_ACTS = ('return', 'complete', 'http', 'app', 'app2')
-OTHER_ACTS = ('return', 'http', 'app', 'app2')
+REQ_ACTS = ('return', 'complete', 'http', 'app', 'app2', 'st')
+OTHER_ACTS = ('return', 'http', 'app', 'app2', 'st')      # 'st': raise falcon.HTTPStatus -- an exception like the others
 HANDLER_ACTS = ('return', 'status', 'http')
 HANDLER_STATUS = (299, 298, 499)
 LIFE_ACTS = ('return', 'runtime', 'http')
@@ -106,6 +107,8 @@ def _enter(ev, resp, acts, label):
         return
     if a == 'http':
         raise falcon.HTTPError(400 + idx)
+    if a == 'st':
+        raise falcon.HTTPStatus(230 + idx)
     if a == 'app':
         raise AppError(label)
     raise AppError2(label)
@@ -355,6 +358,8 @@ def stack_model(cfg, choices, names):
         st['raised'] = True
         if a == 'http':
             st['status'] = 400 + idx
+        elif a == 'st':
+            st['status'] = 230 + idx
         elif a == 'app':
             trace.append(('handler', 'AppError', params))
             st['status'] = HANDLER_STATUS[take(len(HANDLER_ACTS))]
@@ -845,7 +850,7 @@ def check(rep):
                 'assignment of actions to the call sites actually reached; non-trivial = at least one call site '
                 'deviates (sets resp.complete or raises)')
     rep.assumptions = ['an error handler that raises a non-HTTP exception is outside the property (excluded)',
-                       'HTTPStatus raised by middleware/responders is not in the action alphabet',
+
                        'the unrouted default responder and the 405 responder count as raising (HTTPNotFound / HTTPMethodNotAllowed)',
                        'a resource object is truthy']
     # contiguous blocks (simplest configurations first, so the first example kept per violation
